@@ -32,10 +32,12 @@ CONSTANTS Dev,    \* names of known deviations the monitor may use (and report i
 TraceLog == ndJsonDeserialize(IOEnv.TRACE)
 
 VARIABLES l, Q, B, calls, consAt, started, failed, retd, fate, exported, lastS, inExp,
-          ffSnap, ffOK, ffSeen, sdCalled, sdSnap, sdRet, expSD, devUsed, devExecs, usedHere, nexec
+          ffSnap, ffOK, ffSeen, sdCalled, sdSnap, sdRet, expSD, devUsed, devExecs, usedHere, nexec,
+          flushed, flAt
 
 vars == <<l, Q, B, calls, consAt, started, failed, retd, fate, exported, lastS, inExp,
-          ffSnap, ffOK, ffSeen, sdCalled, sdSnap, sdRet, expSD, devUsed, devExecs, usedHere, nexec>>
+          ffSnap, ffOK, ffSeen, sdCalled, sdSnap, sdRet, expSD, devUsed, devExecs, usedHere, nexec,
+          flushed, flAt>>
 
 Ev == TraceLog[l]
 Is(e) == l <= Len(TraceLog) /\ Ev.e = e /\ l' = l + 1
@@ -50,12 +52,14 @@ Init == /\ TLCSet(1, 0)
         /\ retd = {} /\ fate = <<>> /\ exported = {} /\ lastS = [p \in 0..9 |-> -1] /\ inExp = FALSE
         /\ ffSnap = <<>> /\ ffOK = <<>> /\ ffSeen = FALSE /\ sdCalled = FALSE /\ sdSnap = {}
         /\ sdRet = FALSE /\ expSD = 0 /\ devUsed = {} /\ devExecs = 0 /\ usedHere = FALSE /\ nexec = 0
+        /\ flushed = {} /\ flAt = <<>>
 
 TCfg == /\ Is("Cfg")
         /\ Q' = Ev.Q /\ B' = Ev.B /\ calls' = {} /\ consAt' = <<>> /\ started' = 0 /\ failed' = 0
         /\ retd' = {} /\ fate' = <<>> /\ exported' = {} /\ lastS' = [p \in 0..9 |-> -1] /\ inExp' = FALSE
         /\ ffSnap' = <<>> /\ ffOK' = <<>> /\ ffSeen' = FALSE /\ sdCalled' = FALSE /\ sdSnap' = {}
         /\ sdRet' = FALSE /\ expSD' = 0 /\ usedHere' = FALSE /\ nexec' = nexec + 1
+        /\ flushed' = {} /\ flAt' = <<>>
         /\ UNCHANGED <<devUsed, devExecs>>
 
 TOnEndCall ==
@@ -65,13 +69,19 @@ TOnEndCall ==
      /\ Ev.s = Cardinality({c \in calls : PofId(c) = Ev.p})
      /\ calls' = calls \cup {x}
      /\ consAt' = consAt @@ (x :> Ev.cons)
+     /\ flAt' = flAt @@ (x :> Cardinality(flushed))
   /\ started' = started + 1
   /\ UNCHANGED <<Q, B, failed, retd, fate, exported, lastS, inExp, ffSnap, ffOK, ffSeen, sdCalled, sdSnap,
-                 sdRet, expSD, devUsed, devExecs, usedHere, nexec>>
+                 sdRet, expSD, devUsed, devExecs, usedHere, nexec, flushed>>
 
 \* C01: a record is dropped only if the calls started before this one returned (not themselves
 \* failed), minus what was consumed before it started, already fill the queue.
-DropLegit(x) == (started - failed - 1) - consAt[x] >= Q
+\* A ForceFlush that returned true is a completed flush: every record that had been queued before it
+\* began has left the queue by then (that is what "completed" means), whatever the implementation's own
+\* consumption counter says.  `flAt[x]` = how many queued records completed flushes had covered when
+\* call x began.  On a correct implementation consAt[x] >= flAt[x] and the maximum changes nothing.
+Max2(a, b) == IF a >= b THEN a ELSE b
+DropLegit(x) == (started - failed - 1) - Max2(consAt[x], flAt[x]) >= Q
 
 TOnEndRet ==
   /\ Is("OnEndRet")
@@ -85,7 +95,7 @@ TOnEndRet ==
      /\ fate' = fate @@ (x :> Ev.fate)
   /\ failed' = IF Ev.fate = "queued" THEN failed ELSE failed + 1
   /\ UNCHANGED <<Q, B, calls, consAt, started, exported, lastS, inExp, ffSnap, ffOK, ffSeen, sdCalled, sdSnap,
-                 sdRet, expSD, devUsed, devExecs, usedHere, nexec>>
+                 sdRet, expSD, devUsed, devExecs, usedHere, nexec, flushed, flAt>>
 
 RECURSIVE OrderOK(_, _)
 OrderOK(items, lk) ==
@@ -113,7 +123,7 @@ TExpBegin ==
      /\ On("C01", \A i, j \in 1..Len(b) : i # j => b[i] # b[j])
      /\ On("C01", OrderOK(b, lastS))                    \* C01: each producer's own order
      /\ \/ /\ ("C03" \notin Check \/ Len(b) <= B)       \* C03: at most max_export_batch_size
-           /\ UNCHANGED <<devUsed, devExecs, usedHere>>
+           /\ UNCHANGED <<devUsed, devExecs, usedHere, flushed, flAt>>
         \/ /\ "C03" \in Check /\ Len(b) > B /\ Uncapped \in Dev /\ ffSeen
            /\ devUsed' = devUsed \cup {Uncapped}
            /\ devExecs' = IF usedHere THEN devExecs ELSE devExecs + 1
@@ -126,21 +136,21 @@ TExpBegin ==
      /\ lastS' = Advance(b, lastS)
   /\ inExp' = TRUE
   /\ UNCHANGED <<Q, B, calls, consAt, started, failed, retd, fate, ffSnap, ffOK, ffSeen, sdCalled, sdSnap,
-                 sdRet, expSD, nexec>>
+                 sdRet, expSD, nexec, flushed, flAt>>
 
 TExpEnd == /\ Is("ExpEnd") /\ inExp' = FALSE
            /\ UNCHANGED <<Q, B, calls, consAt, started, failed, retd, fate, exported, lastS, ffSnap, ffOK, ffSeen,
-                          sdCalled, sdSnap, sdRet, expSD, devUsed, devExecs, usedHere, nexec>>
+                          sdCalled, sdSnap, sdRet, expSD, devUsed, devExecs, usedHere, nexec, flushed, flAt>>
 
 \* exporter ForceFlush: completes every pending processor ForceFlush whose snapshot is accounted for
 TExpFF == /\ Is("ExpFF") /\ On("C02", ~sdRet)
           /\ ffOK' = [f \in DOMAIN ffOK |-> ffOK[f] \/ (\A x \in ffSnap[f] : Accounted(x))]
           /\ UNCHANGED <<Q, B, calls, consAt, started, failed, retd, fate, exported, lastS, inExp, ffSnap, ffSeen,
-                         sdCalled, sdSnap, sdRet, expSD, devUsed, devExecs, usedHere, nexec>>
+                         sdCalled, sdSnap, sdRet, expSD, devUsed, devExecs, usedHere, nexec, flushed, flAt>>
 
 TExpSD == /\ Is("ExpSD") /\ On("C02", ~sdRet /\ expSD = 0) /\ expSD' = expSD + 1   \* C02: exactly once
           /\ UNCHANGED <<Q, B, calls, consAt, started, failed, retd, fate, exported, lastS, inExp, ffSnap, ffOK,
-                         ffSeen, sdCalled, sdSnap, sdRet, devUsed, devExecs, usedHere, nexec>>
+                         ffSeen, sdCalled, sdSnap, sdRet, devUsed, devExecs, usedHere, nexec, flushed, flAt>>
 
 TFFCall == /\ Is("FFCall")
            /\ Ev.f \notin DOMAIN ffSnap
@@ -148,20 +158,27 @@ TFFCall == /\ Is("FFCall")
            /\ ffOK' = ffOK @@ (Ev.f :> FALSE)
            /\ ffSeen' = TRUE
            /\ UNCHANGED <<Q, B, calls, consAt, started, failed, retd, fate, exported, lastS, inExp, sdCalled, sdSnap,
-                          sdRet, expSD, devUsed, devExecs, usedHere, nexec>>
+                          sdRet, expSD, devUsed, devExecs, usedHere, nexec, flushed, flAt>>
 
 \* C02: ForceFlush returning true => snapshot exported (or legitimately dropped) and the exporter's
 \* ForceFlush invoked afterwards.  `false` is always accepted.
 TFFRet == /\ Is("FFRet") /\ Ev.f \in DOMAIN ffOK
           /\ On("C02", Ev.r => ffOK[Ev.f])
+          \* C01 ("never lost when at most max_queue_size records are produced between two completed flushes"):
+          \* a flush that reports completion has taken its whole snapshot out of the queue, so the queue has
+          \* room again for max_queue_size later records.  `cons` = records consumed from the queue when the
+          \* call returned (logged by the batch harness; absent in logs of the Level-B model).
+          /\ On("C01", (Ev.r /\ "cons" \in DOMAIN Ev) =>
+                         Ev.cons >= Cardinality({x \in ffSnap[Ev.f] : fate[x] = "queued"}))
+          /\ flushed' = IF Ev.r THEN flushed \cup {x \in ffSnap[Ev.f] : fate[x] = "queued"} ELSE flushed
           /\ UNCHANGED <<Q, B, calls, consAt, started, failed, retd, fate, exported, lastS, inExp, ffSnap, ffOK, ffSeen,
-                         sdCalled, sdSnap, sdRet, expSD, devUsed, devExecs, usedHere, nexec>>
+                         sdCalled, sdSnap, sdRet, expSD, devUsed, devExecs, usedHere, nexec, flAt>>
 
 TSDCall == /\ Is("SDCall")
            /\ sdSnap' = IF sdCalled THEN sdSnap ELSE retd
            /\ sdCalled' = TRUE
            /\ UNCHANGED <<Q, B, calls, consAt, started, failed, retd, fate, exported, lastS, inExp, ffSnap, ffOK, ffSeen,
-                          sdRet, expSD, devUsed, devExecs, usedHere, nexec>>
+                          sdRet, expSD, devUsed, devExecs, usedHere, nexec, flushed, flAt>>
 
 \* C02: when any Shutdown returns, everything produced before the first Shutdown call began has been
 \* exported (or legitimately dropped), the exporter was shut down exactly once, no Export in flight
@@ -171,17 +188,17 @@ TSDRet == /\ Is("SDRet") /\ sdCalled
           /\ On("C02", ~inExp)
           /\ sdRet' = TRUE
           /\ UNCHANGED <<Q, B, calls, consAt, started, failed, retd, fate, exported, lastS, inExp, ffSnap, ffOK, ffSeen,
-                         sdCalled, sdSnap, expSD, devUsed, devExecs, usedHere, nexec>>
+                         sdCalled, sdSnap, expSD, devUsed, devExecs, usedHere, nexec, flushed, flAt>>
 
 TProducersDone == /\ Is("ProducersDone") /\ UNCHANGED <<Q, B, calls, consAt, started, failed, retd, fate, exported,
-                         lastS, inExp, ffSnap, ffOK, ffSeen, sdCalled, sdSnap, sdRet, expSD, devUsed, devExecs, usedHere, nexec>>
+                         lastS, inExp, ffSnap, ffOK, ffSeen, sdCalled, sdSnap, sdRet, expSD, devUsed, devExecs, usedHere, nexec, flushed, flAt>>
 
 TEnd == /\ Is("End")
         /\ On("C01", Ev.live = 0)                        \* every record destroyed by the end (no leak)
         /\ ~inExp /\ sdRet
         /\ calls = retd
         /\ UNCHANGED <<Q, B, calls, consAt, started, failed, retd, fate, exported, lastS, inExp, ffSnap, ffOK, ffSeen,
-                       sdCalled, sdSnap, sdRet, expSD, devUsed, devExecs, usedHere, nexec>>
+                       sdCalled, sdSnap, sdRet, expSD, devUsed, devExecs, usedHere, nexec, flushed, flAt>>
 
 Next == TCfg \/ TOnEndCall \/ TOnEndRet \/ TExpBegin \/ TExpEnd \/ TExpFF \/ TExpSD \/ TFFCall \/ TFFRet
         \/ TSDCall \/ TSDRet \/ TProducersDone \/ TEnd
